@@ -452,7 +452,7 @@ def ob_writer_tour(ctx, kinds, dims=1, rates=(7, 3, 2, 5, 4)):
         if res.status != 'holds':
             break
         if not decide_claim(ctx, res, env, st, z3.And(*claims), dom, what=f'{name}: reported statistic, loads, distances, times == recomputation'):
-            if res.status == 'violated' and res.model is not None and 'break' not in kinds and rates[2] == rates[3] == rates[4]:
+            if res.status == 'violated' and res.model is not None and kinds.count('break') <= 1 and rates[2] == rates[3] == rates[4]:
                 res.case = writer_case(res.model, env, nodes, demands, rates, dims)
             break
         if not no_panic(ctx, res, env, st, dom, what=name):
@@ -479,7 +479,14 @@ def writer_case(m, env, nodes, demands, rates, dims):
     dur = [[0 if i == j else ev(env.Dur(nodes[i]['loc'].t, nodes[j]['loc'].t)) for j in range(n)] for i in range(n)]
     dist = [[0 if i == j else ev(env.Dist(nodes[i]['loc'].t, nodes[j]['loc'].t)) for j in range(n)] for i in range(n)]
     jobs, order, ref = [], [], []
+    breaks = []
     for i, (node, (kind, pick, deli)) in enumerate(zip(nodes[1:-1], demands), start=1):
+        if kind == 'break':
+            # a vehicle break with its own location: becomes the conditional job of type "break"
+            breaks.append({'time': [rfc3339(ev(node['tws'].v)), far], 'places': [{'duration': float(ev(node['dur'].v)), 'location': {'index': i}}]})
+            order.append('break')
+            ref.append({'kind': 'break', 'dur': ev(node['dur'].v), 'tws': ev(node['tws'].v), 'amounts': [0] * dims})
+            continue
         task = {'places': [{'location': {'index': i}, 'duration': float(ev(node['dur'].v)), 'times': [[rfc3339(ev(node['tws'].v)), far]]}]}
         amounts = [ev(x.t) for x in (pick if kind == 'pickup' else deli)]
         if kind in ('pickup', 'delivery'):
@@ -492,8 +499,8 @@ def writer_case(m, env, nodes, demands, rates, dims):
     problem = {'plan': {'jobs': jobs},
                'fleet': {'vehicles': [{'typeId': 'type1', 'vehicleIds': ['v1'], 'profile': {'matrix': 'car'},
                                        'costs': {'fixed': float(rates[0]), 'distance': float(rates[1]), 'time': float(rates[2])},
-                                       'shifts': [{'start': {'earliest': rfc3339(dep0), 'location': {'index': 0}},
-                                                   'end': {'latest': far, 'location': {'index': n - 1}}}],
+                                       'shifts': [dict({'start': {'earliest': rfc3339(dep0), 'location': {'index': 0}},
+                                                        'end': {'latest': far, 'location': {'index': n - 1}}}, **({'breaks': breaks} if breaks else {}))],
                                        'capacity': [1000000] * dims}],
                          'profiles': [{'name': 'car'}]}}
     matrix = {'profile': 'car', 'travelTimes': [x for row in dur for x in row], 'distances': [x for row in dist for x in row]}
@@ -540,6 +547,11 @@ def ob_statistic_sum(ctx):
                   F(out, 'model::Statistic', 'duration').t == ta['duration'].t + tb['duration'].t]
         claims += [F(times, 'model::Timing', k).t == ta[k].t + tb[k].t for k in keys]
         if not decide_claim(ctx, res, env, st, z3.And(*claims), what=f'{name}: component-wise sum'):
+            if res.status == 'violated' and res.model is not None:
+                m = res.model
+                ev = lambda t: m.eval(t, model_completion=True).as_long()
+                doc = lambda t, c: dict({k: ev(v.t) for k, v in t.items()}, cost=float(ev(c.v)))
+                res.case = {'kind': 'statistic_sum', 'a': doc(ta, ca), 'b': doc(tb, cb)}
             break
         if not no_panic(ctx, res, env, st, what=name):
             break
@@ -1219,3 +1231,107 @@ def solution_doc(stops, statistic, overall=None):
     stat = {'cost': 0.0, 'distance': statistic[0], 'duration': statistic[1], 'times': times0}
     ov = {'cost': 0.0, 'distance': (overall or statistic)[0], 'duration': (overall or statistic)[1], 'times': times0}
     return {'statistic': ov, 'tours': [{'vehicleId': 'v1', 'typeId': 'type1', 'shiftIndex': 0, 'stops': stops, 'statistic': stat}]}
+
+
+# ---------------------------------------------------------------------------------------------------------------------
+# C16 (pragmatic level) / C10 totality: routing matrix documents -> MatrixData
+
+def ob_pragmatic_matrix(ctx, n, m):
+    """C16 at the pragmatic reader (and C10 totality): the per-matrix step of `create_transport_costs` (real MIR of the
+    closure, `MatrixData::new` from vrp-core) for a matrix document with n travel times / distances and m error codes
+    (m = None: no `errorCodes`): the produced routing data has n entries per table and entry i is the supplied value, or
+    -1 in both tables when error code i is positive - or the document is rejected (Err -> documented code E0002)."""
+    name = f'pragmatic_matrix[entries={n},codes={m}]'
+    res = Result(name)
+    res.bounds = f'one matrix document: {n} travel times and {n} distances (symbolic i64 in [0,2^31]), {"no" if m is None else m} error codes (symbolic in [-2,2])'
+    t0 = time.time()
+    cands = [f for nme, f in ctx.prog.functions.items() if nme.startswith('fleet_reader::create_transport_costs::{closure#') and nme.count('{closure#') == 1
+             and re.search(r'_2: \(usize, (?:std::option::)?Option<(?:std::string::)?String>, &[\w:]*Matrix\)\) -> (?:std::result::)?Result<', f.header)]
+    if len(cands) != 1:
+        raise Inconclusive('the per-matrix closure of create_transport_costs was not found')
+    fn = cands[0]
+
+    class Env(drivers.Env):
+        def override(self, engine, st, callee, args, dest_ty):
+            if 'core::fmt::rt::' in callee or 'fmt::Arguments' in callee or callee.startswith('Arguments::'):
+                return Opaque('fmt argument')
+            if 'fmt::format' in callee or 'format_inner' in callee or callee in ('format', 'std::fmt::format', 'alloc::fmt::format'):
+                return Opaque('"formatted text"')
+            if callee.split('::<')[0].endswith('with_capacity'):
+                return VecV([])
+            return super().override(engine, st, callee, args, dest_ty)
+
+    env = Env(ctx.prog, ctx.layout, 31)
+    eng, _ = ctx.engines(env)
+    holder = {}
+
+    def body(st):
+        env.assumptions.clear()
+        tt = [env.sym_i(f'tt{i}', 0, 2 ** 31, 'i64') for i in range(n)]
+        ds = [env.sym_i(f'dist{i}', 0, 2 ** 31, 'i64') for i in range(n)]
+        codes = [env.sym_i(f'code{i}', -2, 2, 'i64') for i in range(m or 0)]
+        matrix = env.struct('problem::model::Matrix', profile=mk_option(True, Opaque('"car"'), ty='Option<String>'), timestamp=mk_option(False, ty='Option<String>'),
+                            travel_times=VecV(list(tt)), distances=VecV(list(ds)),
+                            error_codes=mk_option(True, VecV(list(codes)), ty='Option<Vec<i64>>') if m is not None else mk_option(False, ty='Option<Vec<i64>>'))
+        holder.update(tt=tt, ds=ds, codes=codes)
+        arg = Agg('tuple', [IV(0), mk_option(False, ty='Option<String>'), RefV(Cell(matrix), 0)], '')
+        return eng.exec_fn(st, fn, [RefV(Cell(Agg('closure', [], 'matrix step', fn_name='matrix step')), 0, True), arg])
+
+    paths = eng.explore(body, max_paths=8000)
+    res.paths = len(paths)
+    res.functions |= eng.functions_used
+    saw_ok = saw_rej = False
+
+    def case_of(model):
+        ev = (lambda t: model.eval(t, model_completion=True).as_long()) if model is not None else (lambda t: 1)
+        size = int(round(n ** 0.5))
+        doc = {'profile': 'car', 'travelTimes': [ev(x.t) for x in holder['tt']], 'distances': [ev(x.t) for x in holder['ds']]}
+        if m is not None:
+            doc['errorCodes'] = [ev(x.t) for x in holder['codes']]
+        jobs = [{'id': f'job{i}', 'services': [{'places': [{'location': {'index': i}, 'duration': 0.0}]}]} for i in range(1, size)] or \
+            [{'id': 'job0', 'services': [{'places': [{'location': {'index': 0}, 'duration': 0.0}]}]}]
+        problem = checker_docs(1, jobs=jobs)
+        return {'kind': 'matrix_read', 'problem': problem, 'matrix': doc, 'size': size}
+
+    for st, out in paths:
+        if out is None:
+            if not no_panic(ctx, res, env, st, what=name):
+                if res.status == 'violated':
+                    res.case = case_of(None)
+                break
+            continue
+        if out.variant() is None:
+            res.status, res.detail = 'inconclusive', 'symbolic result variant'
+            break
+        if out.variant() == 1:
+            saw_rej = True      # rejected: becomes the documented E0002
+            continue
+        md = out.payload[0][0]
+        durs = env.field(md, 'costs::MatrixData', 'durations').items
+        dsts = env.field(md, 'costs::MatrixData', 'distances').items
+        if len(durs) < n or len(dsts) < n:
+            res.status = 'violated'
+            res.detail = f'{name}: the routing data produced from {n} entries and {m} error codes has {len(durs)} durations / {len(dsts)} distances (later look-ups index past the end)'
+            res.counterexample = {'what': res.detail}
+            v, model, _ = ctx.decider.check(list(env.assumptions) + list(st.assumed) + list(st.pc), cross=False)
+            res.case = case_of(model if v == 'sat' else None)
+            break
+        claims = []
+        for i in range(n):
+            bad = holder['codes'][i].t > 0 if m is not None else z3.BoolVal(False)
+            claims.append(z3.And(z3.Not(durs[i].m), z3.Not(dsts[i].m)))
+            claims.append(durs[i].v == z3.If(bad, -1, holder['tt'][i].t))
+            claims.append(dsts[i].v == z3.If(bad, -1, holder['ds'][i].t))
+        if not decide_claim(ctx, res, env, st, z3.And(*claims), what=f'{name}: entry i = supplied value, or -1 in both tables when error code i > 0'):
+            if res.status == 'violated' and res.model is not None:
+                res.case = case_of(res.model)
+            break
+        if not no_panic(ctx, res, env, st, what=name):
+            break
+        saw_ok = True
+    if res.status == 'holds':
+        res.witnesses = int(saw_ok) + int(saw_rej)
+        if (not saw_ok and (m is None or m == n)) or not (saw_ok or saw_rej):
+            res.status, res.detail = 'inconclusive', 'vacuous: no accepted path'
+    res.time = time.time() - t0
+    return res
